@@ -180,6 +180,9 @@ def run_case(case):
     else:
         names = prng.sample(names_pool, prng.choice([1, 2, 3, 5]))
     context = prng.choice(CONTEXTS)
+    if case.get("force_settings") is not None:      # triage aid: tools/rerun.py C12 <seed> <index> <flags> '{"force_settings": [...], "force_context": "root"}'
+        names = list(case["force_settings"])
+    context = case.get("force_context", context)
     base = Hist("C12", seed, index, prof)
     var = None
     try:
